@@ -689,10 +689,14 @@ class Engine(ExprEval, NumpyModel, NumpyFuncs):
             return args[0].gather_pos(to_z3(args[1]))
         if name == "gather_src":
             return args[0].gather_src(to_z3(args[1]))
-        if name == "sort_inv":      # position in the sorted list of the element at (unsorted) position k
-            return args[0].perm_inv(to_z3(args[1]))
-        if name == "sort_perm":
-            return args[0].perm(to_z3(args[1]))
+        if name in ("sort_inv", "sort_perm"):
+            lst = args[0]
+            if getattr(lst, "perm", None) is None:
+                # a list that was not sorted here (e.g. the result of a callee): its pre-sort order is an unknown permutation (skolem functions)
+                lst.perm = z3.Function(fresh_name("sperm"), z3.IntSort(), z3.IntSort())
+                lst.perm_inv = z3.Function(fresh_name("sinv"), z3.IntSort(), z3.IntSort())
+            # sort_inv: position in the sorted list of the element at (unsorted) position k; sort_perm: the inverse
+            return (lst.perm_inv if name == "sort_inv" else lst.perm)(to_z3(args[1]))
         f = self.spec_funcs[name]
         return f(self, st, *args, **kw)
 
